@@ -92,6 +92,7 @@ impl TxDependency {
         }
         for &tx in affects.iter() {
             let mut dependent = self.dependent_state[tx].lock();
+            vemit!(DEP, "DR_Lock", "tx" => txid, "dep" => tx);
             #[cfg(grevm_verif)]
             let mut action = "stale";
             if dependent.dependency == Some(txid) {
@@ -136,6 +137,7 @@ impl TxDependency {
         let next = txid + 1;
         if next < self.num_txs {
             let mut state = self.dependent_state[next].lock();
+            vemit!(DEP, "DC_Lock", "tx" => txid);
             if state.onboard {
                 state.dependency = None;
                 vpoint!(DEPX, "DX_Min");
@@ -153,6 +155,7 @@ impl TxDependency {
     /// immediately; otherwise committing `txid - 1` releases it through [`Self::commit`].
     pub(crate) fn key_tx(&self, txid: TxId, commit_idx: PublishedCursorReader<'_>) {
         let mut state = self.dependent_state[txid].lock();
+        vemit!(DEP, "DK_Lock", "tx" => txid);
         vpoint!(DEPX, "DX_Committed");
         vemit!(DEPX, "DX_Committed", "committed" => commit_idx.get());
         if txid > commit_idx.get() {
@@ -185,8 +188,11 @@ impl TxDependency {
                 "dependency transaction {dep_id} must precede dependent transaction {txid}",
             );
             let mut dep = self.affect_txs[dep_id].lock();
+            vemit!(DEP, "DA_Lock1", "tx" => txid, "dep" => dep_id);
             let mut dep_state = self.dependent_state[dep_id].lock();
+            vemit!(DEP, "DA_Lock2", "tx" => txid, "dep" => dep_id);
             let mut state = self.dependent_state[txid].lock();
+            vemit!(DEP, "DA_Lock3", "tx" => txid);
             state.dependency = Some(dep_id);
             if !state.onboard {
                 state.onboard = true;
@@ -205,6 +211,7 @@ impl TxDependency {
                 "reoffer" => dep_state.dependency.is_none());
         } else {
             let mut state = self.dependent_state[txid].lock();
+            vemit!(DEP, "DA_Lock3", "tx" => txid);
             #[cfg(grevm_verif)]
             let was_onboard = state.onboard;
             if !state.onboard {
